@@ -14,7 +14,8 @@ from mc.spec import to_jsonable, from_jsonable
 ID = 'C17'
 LEVEL = 'model_checking'
 
-HAS_CHUNK_PARAM = 'chunk_size' in inspect.signature(
+HAS_READ_UNTIL = hasattr(DiffXReader, '_read_until')
+HAS_CHUNK_PARAM = HAS_READ_UNTIL and 'chunk_size' in inspect.signature(
     DiffXReader._read_until).parameters
 
 
@@ -70,6 +71,13 @@ def reader_cls(block):
     """Reader whose read-ahead block size is `block` (None = default)."""
     if block in _CLS:
         return _CLS[block]
+    if not HAS_READ_UNTIL:
+        # the read-ahead routine was refactored away: only header alignment
+        # can be varied (paddings); no byte accounting
+        class R0(DiffXReader):
+            pass
+        _CLS[block] = R0
+        return R0
     if block is None or not HAS_CHUNK_PARAM:
         class R(DiffXReader):
             def _read_until(self, c, *a, **k):
